@@ -12,9 +12,11 @@ Two sub-checks:
              formula and against the same survey with sources, receivers and
              frequencies reordered.
 
-``emg3d.surveys.random_noise`` draws from an unseeded generator.  No oracle
-below depends on the realised noise; for *reproducibility only* the generator
-is replaced, during the call, by one derived from a drawn seed.
+``emg3d.surveys.random_noise`` draws from an unseeded generator.  The basic
+oracles do not depend on the realised noise; the generator is replaced, during
+the call, by one derived from a drawn seed (reproducibility).  The seeded
+probes (Driver._probe_noise) compare clones that were given the same generator
+state and differ in mean_noise or in the scale of the standard deviation only.
 """
 import contextlib
 import copy
@@ -30,23 +32,42 @@ from hypothesis.stateful import RuleBasedStateMachine, initialize, rule
 from vp import gen
 from vp.framework import Rec, Violation
 
-RULE = ("history: a generated survey (1x1x1 ... 3x4x3; point/dipole sources, "
-        "absolute/relative electric/magnetic receivers on an integer lattice; "
-        "data with NaN gaps and empty slabs; noise parameters through the "
-        "constructor) is driven through <=12 generated operations: assign "
-        "noise_floor / relative_error (None, float, size-1 array, (nsrc,1,1), "
-        "(1,nrec,1), (1,1,nfreq), (nsrc,nrec,1), (1,nrec,nfreq), full), "
+RULE = ("history: a generated survey (1x1x1 ... 3x4x3, or 10-11 items on one "
+        "axis = zero-padded automatic keys; point/dipole/wire (open, closed "
+        "loop)/magnetic-point sources, optional strength, absolute/relative "
+        "electric/magnetic receivers on an integer lattice, optionally "
+        "shifted by UTM-like constants; given as lists or as dicts with user "
+        "keys whose insertion order is not the sorted order; data with NaN "
+        "gaps, empty slabs and exact zeros; noise parameters through the "
+        "constructor, explicit standard deviation through the setter or the "
+        "data dict of the constructor) is driven through <=12 generated "
+        "operations: assign "
+        "noise_floor / relative_error (None, float, numpy.float64, size-1 "
+        "array, (nsrc,1,1), "
+        "(1,nrec,1), (1,1,nfreq), (nsrc,nrec,1), (1,nrec,nfreq), "
+        "(nsrc,1,nfreq), full; arrays C-ordered, Fortran-ordered, strided "
+        "views or read-only broadcast views), "
         "assign standard_deviation (full / None), assign observed data, "
         "add_noise (3 noise types, mean, min/max offset incl. exact-equality "
-        "offsets, min_amplitude default/'half_nf'/None/float incl. exact "
-        "equality, add_to observed/existing/new), select (sub-sets in any "
-        "order, str or list, remove_empty), copy, to_dict/from_dict, "
-        "to_file/from_file (h5, npz, json), misfit.  A history is "
+        "offsets and explicit inf, min_amplitude default/'half_nf'/None/float "
+        "incl. exact equality, scalars as float/int/numpy.float64, add_to "
+        "observed/existing/new), select (sub-sets in any "
+        "order, str or list, remove_empty), copy / copy.deepcopy / pickle, "
+        "to_dict/from_dict, "
+        "to_file/from_file (h5, npz, json), misfit.  After every operation "
+        "the survey and up to three earlier surveys are compared with the "
+        "model: names, the electrode object behind every name, parameters, "
+        "data, standard deviation.  A history is "
         "non-trivial if at least one add_noise/select/copy/dict/file/misfit "
         "ran while an array-valued noise parameter or explicit standard "
         "deviation was active; distinct by (config, history).  "
-        "misfit: non-trivial if >= 2 finite observations and an array-valued "
-        "parameter; distinct by spec.")
+        "misfit: Simulation.misfit, data.residual and data.weights against "
+        "the checker's formula, against the reordered survey, after "
+        "clean('computed') + re-assigned noise parameters, and for "
+        "Simulation.copy(computed/results/all/plain); solve cases also run "
+        "compute(observed=True, **add_noise kwargs).  Non-trivial if >= 2 "
+        "finite observations and an array-valued parameter; distinct by "
+        "spec.")
 ASSUMPTIONS = [
     "checker-side model: parameters change only through the assignments the "
     "machine itself performs; std = sqrt(nf^2 + (re*|d|)^2) evaluated with "
@@ -56,11 +77,29 @@ ASSUMPTIONS = [
     "(gaussian_correlated), finiteness; NaN pattern = prior NaN | "
     "|observed|<min_amplitude | offset outside [min,max] | std is NaN",
     "numpy.random.default_rng() (no arguments) is replaced during add_noise "
-    "by a generator derived from the drawn seed, for replay determinism only",
+    "by a generator derived from the drawn seed, for replay determinism; "
+    "the seeded probes additionally assume that R depends only on the "
+    "generator state and the shape: clones of the survey (from_dict of "
+    "to_dict(copy=True)) with the same generator state must (A) reproduce "
+    "the result - otherwise nothing is concluded -, (B) change by exactly "
+    "std*(1+i) for mean_noise+1, (C) give twice the noise for twice the "
+    "(explicitly assigned) standard deviation; (C) only when no entry of "
+    "the standard deviation is NaN or 0",
     "misfit sub-check: synthetic data are assigned and Simulation._computed "
-    "is set instead of solving (5 % of the cases really solve on an 8^3 grid)",
-    "offsets are exact: coordinates are integers / half-integers, cut values "
-    "multiples of 0.5",
+    "is set instead of solving (10 % of the cases really solve on an 8^3 "
+    "grid; not for the shapes with >= 10 items)",
+    "data.weights may be 1/std^2 (code, jtvec docstring) or 1/std (misfit "
+    "docstring); data.residual = synthetic - observed bit-identical; both "
+    "only looked at if present in Simulation.data",
+    "offsets are exact: coordinates are integers / half-integers (+ shifts "
+    "that are multiples of 0.125 below 2^23), wires have 2 or 4 unique "
+    "vertices so that their centre is exact, cut values are multiples of "
+    "0.5",
+    "an observation that is exactly 0 with a relative error only has "
+    "std = 0: the misfit is then not compared",
+    "not generated because the documentation does not clearly admit them: "
+    "0-d arrays / ints / float32 as noise parameters, NaN entries in an "
+    "explicit standard deviation, receivers=None",
 ]
 SHARDS = {'quick': 1, 'thorough': 16}
 
@@ -73,9 +112,10 @@ FREQS_MANY = FREQS + [0.05, 0.2, 0.25, 3.0, 4.0, 5.0, 8.0, 20.0]
 # or a three-dimensional float ndarray, as documented)
 FORMS = ['plain', 'np64', 'bcast', 'fortran', 'strided']
 # constant coordinate shifts (UTM-like); all coordinates stay exact multiples
-# of 0.25 below 2**23, so centres and offsets are exact in float64 but not
-# representable in float32
-SHIFTS = [None, (500000.0, 6000000.0, -1000.0), (-350000.5, 4100000.25, 0.0)]
+# of 0.125 below 2**23, so centres and offsets are exact in float64, while
+# the y-coordinates (spacing 0.5 in float32) are not representable in float32
+SHIFTS = [None, (500000.125, 6000000.25, -1000.0),
+          (-350000.5, 7100000.25, 0.0)]
 # user-chosen keys whose insertion order differs from their sorted order
 TAGS = ['z', '10', '9', 'B', 'a', 'Zz', '2', '-1', 'y', '_x', '0']
 INTERNAL = ('_noise_floor', '_relative_error', 'standard_deviation')
@@ -679,7 +719,8 @@ class Driver:
                 a.get('form', 'plain'))
         val = make_param(*args)
         give = make_param(*args)               # fresh object, same layout
-        if a.get('as_list') and isinstance(give, np.ndarray):
+        if (a.get('as_list') and isinstance(give, np.ndarray)
+                and a.get('form', 'plain') == 'plain'):
             give = give.tolist()
         with size1_guard([give]):
             setattr(self.sv, PNAMES[p], give)
@@ -819,7 +860,8 @@ class Driver:
 
         # ---- clones of the state before the call, for the seeded probes
         clones = []
-        if a.get('probe', False) and std is not None:
+        if (a.get('probe', False) and std is not None
+                and not exp_nan.all()):
             import emg3d
             clones = [emg3d.Survey.from_dict(sv.to_dict(copy=True))
                       for _ in range(3)]
@@ -1244,7 +1286,7 @@ ADD_NOISE = st.fixed_dictionaries({
     'mean': st.sampled_from([None, None, 0.0, 0.5, -2.0]),
     'seed': SMALL,
     'num': st.sampled_from(['float', 'float', 'np64', 'int']),
-    'probe': st.booleans()})
+    'probe': st.sampled_from([True, True, True, False])})
 AXIS = st.one_of(st.none(), st.none(), st.tuples(
     st.sampled_from([7, 15, 3, 6, 5, 11, 13, 14, 1, 2, 4, 8, 0, 9, 10, 12]),
     st.sampled_from([0, 1, None, 2, 3]),
@@ -1396,10 +1438,20 @@ MISFIT = st.fixed_dictionaries({
                      max_size=3, unique=True).map(sorted),
     'pseed': st.integers(0, 99),
     'via': st.sampled_from(['ctor', 'ctor', 'setter']),
-    'solve': st.sampled_from([False]*19 + [True]),
+    'solve': st.sampled_from([False]*18 + [True]*2),
     'reuse': st.sampled_from(['none', 'none', 'none', 'clean', 'clean',
                               'copy_computed', 'copy_results', 'copy_all',
                               'copy_plain']),
+    # solve cases only: the production path into add_noise
+    'cobs': st.fixed_dictionaries({
+        'add_noise': st.sampled_from([None, None, True, False]),
+        'min_offset': st.sampled_from([None, 2.0, 3.5, 3]),
+        'max_offset': st.sampled_from([None, None, 5.0, 6.5]),
+        'ntype': st.sampled_from([None, 'white_noise',
+                                  'gaussian_correlated']),
+        'mean': st.sampled_from([None, 0.5, -2.0]),
+        'min_amp': st.sampled_from(['default', 'none']),
+        'seed': SMALL}),
 })
 
 
@@ -1425,7 +1477,7 @@ def case_misfit(spec, rec):
     import emg3d
     shape = tuple(spec['shape'])
     scale = spec['scale']
-    srcs, recs, freqs, _, _, _ = build_geometry(spec['seed'], shape)
+    srcs, recs, freqs, spos, rinfo, _ = build_geometry(spec['seed'], shape)
     nan = spec['nan']
     if nan >= 1.0:
         obs = np.full(shape, np.nan+1j*np.nan)
@@ -1442,7 +1494,8 @@ def case_misfit(spec, rec):
         nf = float(nf.item())
     if isinstance(re, np.ndarray) and re.size == 1:
         re = float(re.item())
-    solve = spec['solve']
+    # (no solves for the shapes with ten or more sources / frequencies)
+    solve = spec['solve'] and max(shape) < 10
     sopts = dict(plain=True, maxit=1, verb=-1) if solve else {}
 
     def simulate(srcd, recd, frqd, obs, nf, re, sd, syn):
@@ -1510,6 +1563,12 @@ def case_misfit(spec, rec):
                             f"after=misfit", f"{pname} changed by misfit")
 
     check_weights(sim, syn_a, obs, std)
+    if solve and spec.get('cobs') is not None:
+        _, sim3 = simulate(srcs, recs, freqs, obs, nf, re, sd, syn)
+        with warnings.catch_warnings():
+            warnings.simplefilter('ignore')
+            _compute_observed(spec['cobs'], sim3, shape, spos, rinfo, nf, re,
+                              sd, rec)
     reuse = spec.get('reuse', 'none')
     rec.cls(f"reuse={reuse}")
     if reuse != 'none':
@@ -1546,6 +1605,84 @@ def case_misfit(spec, rec):
         rec.nt(spec)
     rec.note({'shape': list(shape), 'finite': nfin, 'misfit': got,
               'moved': moved})
+
+
+def _compute_observed(c, sim, shape, spos, rinfo, nf, re, sd, rec):
+    """Simulation.compute(observed=True, **kwargs): "stores the current
+    synthetic responses also as observed responses"; add_noise=False: no
+    noise; else the remaining kwargs are forwarded to Survey.add_noise, whose
+    documented cuts and noise model must hold with d_old = synthetic."""
+    kw = {}
+    for k_spec, k in (('min_offset', 'min_offset'),
+                      ('max_offset', 'max_offset'), ('ntype', 'ntype'),
+                      ('mean', 'mean_noise'), ('add_noise', 'add_noise')):
+        if c[k_spec] is not None:
+            kw[k] = c[k_spec]
+    if c['min_amp'] == 'none':
+        kw['min_amplitude'] = None
+    with seeded_default_rng(c['seed']):
+        sim.compute(observed=True, **kw)
+    sv = sim.survey
+    S = np.array(sim.data.synthetic.data)
+    new = np.array(sv.data.observed.data)
+    noise = kw.get('add_noise', True)
+    rec.cls(f"compute_observed:add_noise={noise}")
+    # (receivers next to the boundary of the tiny grid give NaN responses)
+    nff, ref = full_of(nf, shape), full_of(re, shape)
+    for pname, val in (('noise_floor', nff), ('relative_error', ref)):
+        g = getattr(sv, pname)
+        if (val is None) != (g is None) or (val is not None and not
+                                            np.array_equal(np.broadcast_to(
+                np.asarray(g, float), shape), val)):
+            raise Violation(f"param_changed:{pname}:{kind_of(val)}:current:"
+                            "after=compute(observed=True)",
+                            f"{pname} changed by compute(observed=True)")
+    if not noise:
+        if not _same(new, S):
+            raise Violation("compute_observed:add_noise=False:not_a_copy",
+                            "observed differs from synthetic although "
+                            "add_noise=False")
+        return
+    off = np.zeros(shape[:2])
+    for i, sc in enumerate(spos):
+        for j, (rc, rel) in enumerate(rinfo):
+            ra = rc + sc if rel else rc
+            off[i, j] = np.sqrt(float(np.sum((ra - sc)**2)))
+    lo = kw.get('min_offset', 0.0)
+    hi = kw.get('max_offset', np.inf)
+    cut = np.broadcast_to(((off < lo) | (off > hi))[:, :, None], shape).copy()
+    if c['min_amp'] != 'none' and nff is not None:
+        cut |= np.abs(S) < nff/2.0
+    obs_c = S.copy()
+    obs_c[cut] = np.nan + 1j*np.nan
+    std = model_std(nff, ref, sd, obs_c)
+    exp_nan = np.isnan(S) | cut | np.isnan(std)
+    rec.cls(f"compute_observed:cut={_frac(cut)}",
+            f"compute_observed:noisy={_frac(~exp_nan)}")
+    if not np.array_equal(np.isnan(new), exp_nan):
+        raise Violation(
+            "compute_observed:nan_pattern",
+            f"NaN pattern of observed after compute(observed=True, {kw}) "
+            f"differs from the documented cuts: expected {int(exp_nan.sum())}"
+            f" NaN, got {int(np.isnan(new).sum())}",
+            {'expected_nan': exp_nan, 'got_nan': np.isnan(new),
+             'offsets': off, 'abs_synthetic': np.abs(S)})
+    ok = ~exp_nan
+    mean = float(kw.get('mean_noise', 0.0))
+    ntype = kw.get('ntype', 'white_noise')
+    delta = new[ok] - S[ok]
+    sg = std[ok]
+    tol = 1e-11*(np.abs(S[ok]) + np.abs(new[ok]) + sg*(1 + 2*abs(mean)))
+    if ntype == 'white_noise':
+        dev = np.abs(np.abs(delta - sg*(1+1j)*mean) - sg)
+    else:
+        dev = np.abs(delta.real - delta.imag)
+    if np.any(dev > tol) or not np.all(np.isfinite(delta)):
+        raise Violation(
+            f"compute_observed:noise_model:{ntype}",
+            f"observed - synthetic after compute(observed=True, {kw}) does "
+            "not follow std*((1+i)*mean + R)",
+            {'std': std, 'synthetic': S, 'observed': new})
 
 
 def _misfit_reuse(reuse, sim, sv, shape, obs, syn, syn_a, nf, re, sd, got,
@@ -1632,4 +1769,6 @@ def run(ctx):
     ctx.regression(SUBS)
     ctx.machine('history', SurveyMachine, ctx.n(400, 3000), steps=12)
     ctx.explore('misfit', MISFIT, case_misfit, ctx.n(400, 3000))
-    ctx.fuzz('misfit', ctx.n(200, 4000))
+    # (quick: 130 instead of 200 runs since a case now builds up to four
+    # simulations; keeps the quick tier inside its time budget)
+    ctx.fuzz('misfit', ctx.n(130, 4000))
